@@ -166,6 +166,7 @@ func c01(c *Ctx) {
 	c01MustRecurse(c, allReach)
 	c01SharedMaps(c, svcs, allReach)
 	c01DecoderLoops(c, allReach)
+	c01UnlockBalanced(c)
 }
 
 func min(a, b int) int {
